@@ -18,11 +18,12 @@ class Exec:
 class Config:
     """One closed driver configuration: files on disk + argv + scheduler flags."""
 
-    def __init__(self, name, workdir, args, sources, sigint=False, hooks=False, postops=False, step_limit=20000, exec_timeout=60, policy=None):
+    def __init__(self, name, workdir, args, sources, sigint=False, hooks=False, postops=False, step_limit=20000, exec_timeout=60, policy=None, once=False):
         self.name, self.workdir, self.args, self.sources = name, workdir, args, sources
         self.sigint, self.hooks, self.postops = sigint, hooks, postops
         self.step_limit, self.exec_timeout = step_limit, exec_timeout
         self.policy = policy
+        self.once = once
         self._n = 0
         self._lock = threading.Lock()
 
@@ -39,6 +40,8 @@ class Config:
                     "S4V_SOURCES": ",".join(self.sources), "S4V_STEP_LIMIT": str(self.step_limit), "TMPDIR": tmpdir})
         if policy or self.policy:
             env["S4V_POLICY"] = policy or self.policy
+        if self.once:
+            env["S4V_ONCE"] = "1"
         if self.sigint:
             env["S4V_SIGINT"] = "1"
         if self.hooks:
